@@ -72,6 +72,15 @@ func Judge(prop string, p *sdl.Program, cfg map[string]string, runs []*Obs) []Vi
 		})
 	case "C13":
 		perRun(func(o *Obs) []Violation { return w.CheckRunners(o) })
+	case "C15":
+		perRun(func(o *Obs) []Violation { return w.CheckConfigMerge(o) })
+	case "C18":
+		perRun(func(o *Obs) []Violation {
+			if !faultFree(o) {
+				return nil
+			}
+			return w.CheckConfigStages(o)
+		})
 	case "C14":
 		perRun(func(o *Obs) []Violation { return w.CheckClose(o) })
 	case "C10":
